@@ -505,6 +505,8 @@ const MENU_C10: &[&str] = &[
     "S 4",
     "PULSE 5 \"f\" w",
     "DEFCIRCUIT C:\n    X 6",
+    "DEFGATE S2 a b AS SEQUENCE:\n    H a",
+    "S2 1 7",
 ];
 
 fn parse_menu(m: &[&str]) -> Vec<Instruction> {
@@ -726,7 +728,7 @@ pub static C10: PropDef = PropDef {
     id: "C10",
     level: "model_checking",
     engine: "hist",
-    rule: "transition system over real Programs: add_instruction over a 14-instruction menu (calibrations on fixed and variable qubits, measure calibration, gates, MEASURE, RESET, frame update, frame, sequence gate definition and use, pulse, circuit, a gate on a qubit placeholder) and the operations concat-with-self, clone_without_body_instructions, expand_calibrations, expand_defgate_sequences, simplify, wrap_in_loop(2 / 0), resolve_placeholders, filter_instructions, rebuild, dagger; depth <= 3 (thorough 4); stateright DFS with state matching. Oracle in every state (differential): used qubits and equality against from_instructions(to_instructions()); body qubits <= used <= all syntactic qubits; two states with equal listing have equal used-qubit sets. non-trivial = state at depth >= 2",
+    rule: "transition system over real Programs: add_instruction over a 16-instruction menu (calibrations on fixed and variable qubits, measure calibration, gates, MEASURE, RESET, frame update, frame, sequence gate definition and use, pulse, circuit, a gate on a qubit placeholder) and the operations concat-with-self, clone_without_body_instructions, expand_calibrations, expand_defgate_sequences, simplify, wrap_in_loop(2 / 0), resolve_placeholders, filter_instructions, rebuild, dagger; depth <= 3 (thorough 4); stateright DFS with state matching. Oracle in every state (differential): used qubits and equality against from_instructions(to_instructions()); body qubits <= used <= all syntactic qubits; two states with equal listing have equal used-qubit sets. non-trivial = state at depth >= 2",
     assumptions: ASSUME,
     run: |ctx| {
         let d = ctx.tier.pick(3, 4);
